@@ -172,14 +172,8 @@ func (fkai *fixedKeyArrayIndex) GetOffset(key Key) (int64, error) {
 			}
 			return offset, nil
 		case -1:
-			if lo == hi {
-				break
-			}
 			lo = mid + 1
 		case 1:
-			if lo == hi {
-				break
-			}
 			hi = mid - 1
 		}
 	}
